@@ -228,6 +228,8 @@ class TxnScenario:
         self.fatal_t = None
 
     def fail(self, oracle, sig, msg):
+        if self.p.get("family"):
+            sig = dict(sig, family=self.p["family"])  # scenario family outside the property's own fault alphabet
         if not any(o == oracle and s == sig for o, s, _ in self.violations):  # one report per fact and execution
             self.violations.append((oracle, sig, msg))
 
@@ -843,11 +845,16 @@ class TxnScenario:
         """(3) only retriable faults were offered: every call of the live producer returns within the horizon."""
         live = "pb" if self.killed else "pa"
         death = self.sender_death(live)
+        if death:
+            # everything else that went wrong in this run is a consequence of the sender task having died
+            self.fail("liveness", {"what": "sender-task-died", "chain": "<".join(death.split("<")[:3])},
+                      f"{live}: the sender task died with {death} although only retriable faults occurred: {self.faults_seen}; calls {self.calls}")
+            return
         for owner, name, r in self.calls:
-            if owner != live:
-                continue
+            if owner != live or name == "send":
+                continue  # a send() that raises (e.g. metadata timeout, or refused because commit was already called) adds no record
             if r[0] != "ok":
-                self.fail("liveness", {"what": "call-did-not-succeed", "call": name, "got": r[1] if r[0] == "exc" else r[0], "sender_died": death},
+                self.fail("liveness", {"what": "call-did-not-succeed", "call": name, "got": r[1] if r[0] == "exc" else r[0]},
                           f"{owner}.{name}() -> {r} although only retriable faults occurred: {self.faults_seen}")
         for T in self.txns:
             if T["owner"] != live:
@@ -855,7 +862,7 @@ class TxnScenario:
             for s in T["sends"]:
                 if s["res"] is None or s["res"][0] != "ok":
                     got = "unresolved" if s["res"] is None else s["res"][-1]
-                    self.fail("liveness", {"what": "send-future-not-ok", "got": got, "sender_died": death},
+                    self.fail("liveness", {"what": "send-future-not-ok", "got": got},
                               f"{owner}: future of {s['value']} -> {s['res']} although only retriable faults occurred: {self.faults_seen}")
         sr = self.start_results.get(live)
         if sr is not None and sr[0] == "hang":
